@@ -330,6 +330,34 @@ static int cmd_batch(int argc, char **argv, int enumerate)
 							break;	/* fault did not fire: this thread has fewer waits */
 					}
 				}
+			/* the k-th read of the library's own wake-up descriptors (eventfd, pipe, inotify) in every loop
+			 * thread is interrupted (EINTR) or finds nothing after all (EAGAIN) */
+			for (t = 0; t < nloops && nviol < 20; t++) {
+				int e;
+				for (e = 0; e < 2 && nviol < 20; e++)
+					for (k = 1; k <= 10 && nviol < 20; k++) {
+						struct simk_fault *f = &PLN.faults[basefaults];
+						PLN.nfaults = basefaults + 1;
+						memset(f, 0, sizeof(*f));
+						f->site = FS_LIBREAD; f->tid = t + 1; f->k = (int)k; f->err = e ? EAGAIN : EINTR;
+						run_plan(&PLN, &OUT, 0);
+						variants++;
+						snprintf(ex, sizeof(ex), "variant=libread:t%d:k%ld:e%d", t, k, f->err);
+						print_oneline("RUN", i, seed, &OUT, ex);
+						if (OUT.status == 1) {
+							snprintf(path, sizeof(path), "%s/cand-%s-%" PRIu64 "-r%d-%ld-%d.plan", outdir, prop, seed, t, k, e);
+							write_replay(&PLN, &OUT, path);
+							nviol++;
+						}
+						{
+							char tag[24];
+							const char *fl = strstr(OUT.text, "\nF");
+							snprintf(tag, sizeof(tag), " %d=", FS_LIBREAD);
+							if (fl == NULL || strstr(fl, tag) == NULL)
+								break;
+						}
+					}
+			}
 			{
 				/* optional facilities */
 				static const struct { int site, err; } fac[] = {
